@@ -101,7 +101,8 @@ def _wval(w, spec, as_image_ok=True):
 
 def build_geometry(spec: dict):
     nat = _native(spec)
-    kw = {"space_dim": spec["space_dim"], "num_voxels": tuple(nat) if spec.get("nv_tuple", True) else list(nat)}
+    nv = tuple(nat) + tuple(spec.get("nv_extra", ()))  # e.g. the full shape of a space-time / vector array: only the
+    kw = {"space_dim": spec["space_dim"], "num_voxels": nv if spec.get("nv_tuple", True) else list(nv)}  # first entries count
     if spec["size_by"] == "dimensions":
         kw["dimensions"] = [float(n) * v for n, v in zip(nat, spec["voxel_size"])]
     else:
@@ -280,6 +281,21 @@ class C03Engine(Engine):
                    "C03.V on the array-volume resize path is compared at 1e-5 relative (OpenCV INTER_AREA precision), "
                    "history oracle C03.H at 1e-12 relative (same code both sides)"]
 
+    def fixed_cases(self, tier):
+        cases = super().fixed_cases(tier)
+        # sizes that random small inputs never reach: millions of voxels, float32 series (accumulation in low precision)
+        for cls, payload in (("Geometry", {"kind": "series", "t": 2}), ("ExtrudedGeometry", {"kind": "vector", "n": 2})):
+            obj = {"cls": cls, "space_dim": 2, "base": [3, 4], "r": [150, 150], "voxel_size": [0.01, 0.02], "size_by": "dimensions"}
+            if cls != "Geometry":
+                obj["weight"] = {"kind": "scalar", "val": 0.5}
+            cases.append({"engine": self.name, "seed": -1, "objects": {"g0": obj},
+                          "clients": {"c0": [{"op": "integrate", "obj": "g0", "m": [150, 150], "field": 5, "payload": payload,
+                                              "form": "array", "dtype": "float32"},
+                                             {"op": "integrate", "obj": "g0", "m": [750, 750], "field": 5, "payload": payload,
+                                              "form": "image", "dtype": "float32"}]},
+                          "schedule": ["c0", "c0"], "faults": [], "env": []})
+        return cases
+
     def check_seams(self):
         for n in ("Geometry", "WeightedGeometry", "ExtrudedGeometry", "PorousGeometry", "ExtrudedPorousGeometry"):
             if not hasattr(darsia, n):
@@ -305,6 +321,10 @@ class C03Engine(Engine):
             k = rng.choice(["scalar", "array", "array"])
             return {"kind": "scalar", "val": rng.choice([0.2, 0.5, 1.0, 3.0])} if k == "scalar" else \
                 {"kind": "array", "id": rng.randint(0, 999)}
+        if rng.random() < 0.15:
+            spec["nv_extra"] = [rng.randint(2, 4) for _ in range(rng.randint(1, 2))]
+        if rng.random() < 0.3:
+            spec["nv_tuple"] = False
         if cls != "Geometry":
             spec["weight"] = w()
         if cls == "ExtrudedPorousGeometry":
@@ -553,6 +573,8 @@ class C03Engine(Engine):
                     # float32 data times a scalar volume is evaluated by numpy in float32
                     f32 = op.get("dtype", "float64") == "float32"
                     tol = (1e-5 if (resized or f32) else 1e-11) * scale
+                    if f32 and fb.size and np.prod(op["m"]) * fb.size > 10**6:
+                        tol = 1e-4 * scale  # float32 accumulation over millions of voxels
                     if op["op"] == "normalize":
                         tol = max(tol, 1e-9 * scale)
                     if not _close(val, ref, tol):
